@@ -48,7 +48,7 @@ CHECKS = {
           "DESIGN.md §5 C08"),
   "C09": ("exploration",
           "differential property-based testing (execution=wand|bmw vs execution=bm25 on the same reader)",
-          "Corpora of 30-2500 short documents over a 15-word vocabulary (posting lists spanning many blocks) in 1-3 segments with deletions and four (k1,b) settings; 12 scored query trees per corpus (terms, bool, dis_max, boosts incl. 0, multi_match, expansions, function_score, script_score, rank_feature, constant_score, phrases) with limit 1..50, optional filter, wand or bmw and block size 1..300. The pruned response must equal the exhaustive one (length, position-wise and per-id scores within 1e-5 relative, membership differing only among ties with the k-th score) and its total_hits_estimate must not exceed the exhaustive one.",
+          "Corpora of 30-2500 short documents over a 15-word vocabulary (posting lists spanning many blocks) in 1-3 segments with deletions and four (k1,b) settings; 12 scored query trees per corpus (terms, bool, dis_max, boosts incl. 0, multi_match, expansions, function_score, script_score, rank_feature, constant_score, phrases) (function_score also with min_score, nested and as a root wrapper) with limit 1..50 (a quarter 1..3), optional filter, wand or bmw and block size 1..300 / 128 / default; two cases in seven use a block-boundary corpus (one word in every document so that posting index = document ordinal, equal lengths, high-tf documents at and next to the last position of every 128-posting block) with term / bool queries on that word, limit 1..3 and the stored block size. The pruned response must equal the exhaustive one (length, position-wise and per-id scores within 1e-5 relative, membership differing only among ties with the k-th score) and its total_hits_estimate must not exceed the exhaustive one.",
           "Trusted: the exhaustive bm25 strategy as the reference (C10 checks it against an independent BM25 model). Float tolerance 1e-5 relative.",
           "DESIGN.md §5 C09"),
   "C10": ("exploration",
@@ -58,7 +58,7 @@ CHECKS = {
           "DESIGN.md §5 C10"),
   "C11": ("exploration",
           "property-based testing: cursor walk vs single covering request (metamorphic) plus cursor-misuse scenarios",
-          "Tie-heavy corpora over 1-4 segments with deletions, queries, filters, sort plans of 0-3 keys, page sizes 1..7 and all three execution strategies: the concatenated pages must equal the single covering request (ids, order, scores), without duplicates, with full pages and no cursor on the last page; total_hits_estimate never exceeds the true count and is exact when execution is exhaustive. The first page's cursor is then replayed after an add+commit, a compaction, a delete-only commit and against a different sort plan and must be rejected (leniently judged after a delete-only commit).",
+          "Tie-heavy corpora over 1-4 segments with deletions, queries, filters, sort plans of 0-3 keys, page sizes 1..7, all three execution strategies and (30%) a candidate_size above the page size: the concatenated pages must equal the single covering request (ids, order, scores), without duplicates, with full pages and no cursor on the last page; total_hits_estimate never exceeds the true count and is exact when execution is exhaustive. The first page's cursor is then replayed after an add+commit, a compaction, a delete-only commit and against a different sort plan and must be rejected (leniently judged after a delete-only commit).",
           "Trusted: the single covering request as reference for order (C10 checks that order against an independent model). Cursor walks combined with rescore are not generated (unspecified).",
           "DESIGN.md §5 C11"),
   "C12": ("exploration",
@@ -68,7 +68,7 @@ CHECKS = {
           "DESIGN.md §5 C12"),
   "C13": ("exploration",
           "metamorphic property-based testing (one base request vs paging / sort / execution / flag / rescore variations)",
-          "For generated corpora, queries, filters, aggregation trees (terms, rare_terms, range, histogram, filter, composite, metrics, percentiles, top_hits) and completion suggest requests, the aggregations and suggestions of 5 variations per case (limit 1..n, return_hits=false, sort plans, wand/bmw block sizes, explain/profile, rescore, every page of a cursor walk) must equal those of a covering bm25 base request: counts, keys and document ids exact, f64 aggregates within 1e-9 relative, top_hits hit scores (f32 sums) within the harness-wide score tolerance of 1e-5 relative; a score-ordered top_hits list may hold another document at a position only when the scores there are within that tolerance (tie rule of DESIGN §8, counted as a class, not judged).",
+          "For generated corpora, queries, filters, aggregation trees (terms, rare_terms, range, histogram, filter, composite, metrics, percentiles, top_hits) and completion suggest requests, the aggregations and suggestions of 5 variations per case (limit 1..n, return_hits=false, sort plans, wand/bmw block sizes, explain/profile, rescore, every page of a cursor walk) must equal those of a covering bm25 base request: counts, keys and document ids exact, f64 aggregates within 1e-9 relative, top_hits hit scores (f32 sums) within the harness-wide score tolerance of 1e-5 relative; a score-ordered top_hits list may hold another document at a position only when the scores there are within that tolerance (tie rule of DESIGN §8, counted as a class, not judged) - except between exact ties (same segment, same token multisets, bit-identical base scores; or a plain score-descending top_hits whose base list holds the later of two documents with bit-identical base scores and lacks the earlier one), where a swap is a violation.",
           "Trusted: the comparison only (props/c13.rs agg_cmp). Differences of top_hits scores under explain are attributed to the listed C20 finding.",
           "DESIGN.md §5 C13"),
   "C14": ("exploration",
@@ -83,12 +83,12 @@ CHECKS = {
           "DESIGN.md §5 C15"),
   "C18": ("exploration",
           "property-based testing with the uncollapsed ranking of the same request as oracle",
-          "Tie-heavy corpora with a single-valued (or missing) group field over 1-4 segments, queries, filters, main sort plans, limits below and above the number of matches, candidate sizes and inner_hits {size, from, sort}: the collapsed response is judged against the same request without collapse: one hit per value, every hit is the best-ranked member of its group, groups form a prefix of the groups in ranking order, documents without the field never appear, total_groups within bounds (exact when the limit covers every match), inner hits are other members of the group in inner-sort order windowed by from/size (exact when the limit covers every match). One listed finding (pool cut before grouping) is matched by predicate.",
+          "Tie-heavy corpora with a single-valued (or missing) group field over 1-4 segments, queries, filters, main sort plans, limits below and above the number of matches, candidate sizes and inner_hits {size, from, sort}: the collapsed response is judged against the same request without collapse: one hit per value, every hit is the best-ranked member of its group, groups form a prefix of the groups in ranking order, documents without the field never appear, total_groups within bounds (exact when the limit covers every match), inner hits are other members of the group in inner-sort order windowed by from/size (exact when the limit covers every match). One case in five collapses a rescored ranking (default score sort, covering limit): one hit per group, every group present, representative = a member with the group's highest score after rescoring. One listed finding (pool cut before grouping) is matched by predicate.",
           "Trusted: the uncollapsed response (checked by C10/C11). An inner sort using _score is only combined with a main sort that uses _score.",
           "DESIGN.md §5 C18"),
   "C19": ("exploration",
           "property-based testing with a differential oracle (same request without rescore + standalone search for the rescore query)",
-          "Corpora, initial scored queries, rescore queries (optionally rejecting documents through min_score), window sizes 0..limit+5, all five score modes, limits and candidate sizes: the response must be the window survivors with the documented score combination, ordered by the new score, followed by the untouched tail (original scores, original order), truncated to limit.",
+          "Corpora, initial scored queries, rescore queries (optionally rejecting documents through min_score), window sizes 0..limit+5, all five score modes, limits and candidate sizes, default score sort or a leading single-valued fast key in front of _score desc: the response must be the window survivors with the documented score combination, ordered by the new score (within each run of equal leading sort values), followed by the untouched tail (original scores, original order), truncated to limit.",
           "Trusted: standalone bm25 searches on the same reader for the rescore scores; tolerance 1e-5 relative; windows larger than the guaranteed candidate pool are classified but not judged.",
           "DESIGN.md §5 C19"),
   "C20": ("exploration",
@@ -113,7 +113,7 @@ CHECKS = {
           "DESIGN.md §5 C21"),
   "C22": ("exploration",
           "property-based testing against a reference term dictionary (document frequencies computed from the raw documents) plus layout/size/repetition metamorphic relations",
-          "Corpora of 3-40 documents without deletions (text field under 5 analyzers, keyword field, vocabulary sharing prefixes and a dense family for the scan-cap stratum) are committed under 2-4 segment layouts and asked completion requests (single-word prefixes of length 0-5, size 1..10, optional fuzzy options): every option must be an indexed term matching the analyzed prefix (or within the edit distance and sharing prefix_length characters), unique, sorted by (score desc, text asc), at most size; doc_freq must equal the number of indexed documents containing the term; below the scan cap the options must be the head of the covering-size list, which must hold exactly the eligible terms; answers must be identical across layouts, repeated calls and fresh readers.",
+          "Corpora of 3-40 documents without deletions (text field under 5 analyzers, keyword field, vocabulary sharing prefixes and a dense family for the scan-cap stratum) are committed under 2-4 segment layouts and asked completion requests (single-word prefixes of length 0-5 incl. upper-case ASCII and non-ASCII ones, size 1..10, optional fuzzy options): every option must be an indexed term matching the analyzed prefix (or within the edit distance and sharing prefix_length characters), unique, sorted by (score desc, text asc), at most size; doc_freq must equal the number of indexed documents containing the term; below the scan cap the options must be the head of the covering-size list, which must hold exactly the eligible terms; answers must be identical across layouts, repeated calls and fresh readers.",
           "Trusted: the crate's analyzers for tokenisation (index terms and the analyzed prefix), harness Levenshtein. At or above the scan cap only soundness (term validity, ordering, doc_freq upper bound) is judged.",
           "DESIGN.md §5 C22"),
   "C23": ("exploration",
@@ -133,7 +133,7 @@ CHECKS = {
           "DESIGN.md §5 C25"),
   "C26": ("exploration",
           "property-based testing of the C ABI with guarded buffers (canary regions, every capacity in the thorough tier) in a supervised child process",
-          "Indexes driven only through the C API (searchlite_index_open / add_json / commit / search): queries as plain text, JSON nodes and raw bytes incl. invalid UTF-8, limits 0..6, garbage and real cursors, valid/invalid aggregation JSON. The output buffer sits between two 64-byte canaries in an allocation pre-filled with 0xAA; for 40 sampled capacities plus the boundary ones (quick) or every capacity from 0 to full length + 16 (half of the thorough cases) the call must leave canaries and every byte at index >= buf_cap untouched, return ret <= buf_cap-1 with a NUL at ret and none before, write a prefix of the full response, leave a zero-capacity buffer alone; null handle/query/buffer return 0 and write nothing; failing searches return 0 and write nothing; null arguments to add/commit return negative status. A crash of the process (null dereference, abort) is caught by the supervisor and traced to the call in flight.",
+          "Indexes driven only through the C API (searchlite_index_open / add_json / commit / search): queries as plain text, JSON nodes and raw bytes incl. invalid UTF-8, limits 0..6, garbage and real cursors, valid/invalid aggregation JSON. The output buffer sits between two 64-byte canaries in an allocation pre-filled with 0xAA; for 40 sampled capacities plus the boundary ones (quick) or every capacity from 0 to full length + 16 (half of the thorough cases) the call must leave canaries and every byte at index >= buf_cap untouched, return ret <= buf_cap-1 with a NUL at ret and none before, write a prefix of the full response, leave a zero-capacity buffer alone; null handle/query/buffer return 0 and write nothing; failing searches return 0 and write nothing; the aggregation JSON is passed without a NUL at aggs_len (non-JSON bytes follow it in the same allocation) and a well-formed map must be honoured whenever the same search works without it; null arguments to add/commit return negative status. A crash of the process (null dereference, abort) is caught by the supervisor and traced to the call in flight.",
           "Trusted: the guarded allocation; writes further than 64 bytes outside the buffer that hit unrelated memory without crashing would go unnoticed (no ASan build in this tier).",
           "DESIGN.md §5 C26"),
   "C28": ("exploration",
